@@ -38,11 +38,11 @@ def gen_lines(rng, tier):
         lines.append('mysqlhs %s %d %s %d %d %d %s %s' % (
             rng.choice(['8.0.33', '5.7.42-log', '10.6.12-MariaDB', '5']).encode().hex(), rng.randrange(2 ** 32), framegen.rnd_bytes(rng, 8).hex(), hc,
             rng.choice(charsets), sum(f for f in stf if rng.random() < 0.3),
-            (framegen.rnd_bytes(rng, 12).hex() + '00') if plugin else '-', rng.choice(['mysql_native_password', 'caching_sha2_password']).encode().hex() if plugin else '_'))
+            (framegen.rnd_bytes(rng, rng.choice([0, 1, 4, 12, 12, 13, 14, 21])).hex() or '-') if plugin else '-', rng.choice(['mysql_native_password', 'caching_sha2_password']).encode().hex() if plugin else '_'))
         c320 = sum(c for c in caps if c < 65536 and c != 512 and rng.random() < 0.4)
         lines.append('mysqlssl320 %d %d' % (c320, rng.choice([0, 0xffff, 2 ** 24 - 1])))
         acks = [rng.randrange(2 ** 32) for _ in range(rng.choice([0, 0, 1, 2, 5, 255]))]
-        lines.append('ovpnctl 4 %d %s %d %d %s' % (rng.getrandbits(64), ','.join(map(str, acks)) or '-', rng.getrandbits(64), rng.randrange(2 ** 32),
+        lines.append('ovpnctl 4 %d %s %d %d %s' % (rng.getrandbits(64), ','.join(map(str, acks)) or '-', rng.choice([0, 0, 1, 2 ** 64 - 1, rng.getrandbits(64), rng.getrandbits(64)]), rng.randrange(2 ** 32),
                                                   framegen.rnd_bytes(rng, rng.choice([0, 1, 100])).hex() or '-'))
         lines.append('ovpntcp %s' % (framegen.rnd_payload(rng).hex() or '-'))
     return lines
